@@ -128,6 +128,17 @@ CLAIMS = {
   "technique": "static analysis: must-dataflow over the dispatch loop's CFG, status/interrupt typestate, queue-discipline rules",
   "design_ref": "DESIGN.md section 4, C05",
  },
+ "C13": {
+  "text": "Handle-consistency clauses decided structurally: each heap slot write is followed by a notification of that element with "
+          "that index (bulk constructor: a loop over every index, after heapifying), the notifier/cookie/comparator are forwarded "
+          "unchanged to every helper, add announces nelems-1, delete fills the hole from the last slot; the timer queue uses the "
+          "position its notifier stored in the record the caller's cookie designates and stores/returns exactly the caller's pointer; "
+          "parent/child index arithmetic is guarded and the sift loops use the comparator with the documented sign.",
+  "note": "Trusted: the elastic-array wrappers. Not decided: that sifting restores the heap order for every operation history "
+          "(inductive array invariant); comparator totality is C04's O6.",
+  "technique": "static analysis: structural pairing (slot write / notification), argument provenance, guarded index normal forms",
+  "design_ref": "DESIGN.md section 4, C13",
+ },
 }
 
 NOT_APPLICABLE = {
